@@ -109,13 +109,14 @@ type run40 struct {
 	dirBusy   map[int]int     // directory -> owner of the OPEN parked inside its lock
 	lastLock  map[int]*req40  // lock state ID other -> last lock-owner request that advanced
 	inflight  map[int]*req40  // owner -> request whose transaction is running (OPEN parked)
+	dirty     map[int]bool    // owner -> a request since the last advance failed without advancing (it may have dropped the cache)
 	label     int
 }
 
 func newRun40(t *testing.T, w *nfsx.World, drv *hx.Driver, out *outcome) *run40 {
 	r := &run40{t: t, w: w, p: w.NewNFS40(), drv: drv, out: out, reqs: map[int]*req40{}, owners: map[string]int{},
 		others: map[[12]byte]int{}, confirmed: map[int]bool{}, lastCons: map[int]*req40{}, touched: map[int]int{},
-		consumed: map[[2]int]*req40{}, lockCons: map[[2]int]*req40{}, dirBusy: map[int]int{}, lastLock: map[int]*req40{}, inflight: map[int]*req40{}}
+		consumed: map[[2]int]*req40{}, lockCons: map[[2]int]*req40{}, dirBusy: map[int]int{}, lastLock: map[int]*req40{}, inflight: map[int]*req40{}, dirty: map[int]bool{}}
 	for c := 0; c < 2; c++ {
 		id, err := nfsx.Register40(r.p, fmt.Sprintf("client%d", c), 1)
 		if err != nil {
@@ -368,6 +369,7 @@ func (r *run40) build(f []string) (*req40, bool) {
 func (r *run40) start(q *req40) {
 	c := &call40{id: len(r.calls), req: q, done: make(chan struct{}), label: r.label}
 	r.calls = append(r.calls, c)
+	r.out.defs[c.label] = q.id // every call of a request whose replies are referenced later stays in the reference run
 	first := len(q.calls) == 0
 	// client-side classification
 	if !q.lockTx && q.owner >= 0 {
@@ -376,18 +378,25 @@ func (r *run40) start(q *req40) {
 		if x := r.inflight[q.owner]; x != nil && x != q {
 			last = x // a newer request of the owner is executing: this one is handled after it
 		}
-		if cons := r.consumed[k2]; cons != nil && cons != q && first && (last == cons || r.confirmed[q.owner]) {
-			q.falseOf = cons
+		// a retransmission / reuse of a consumed seqid is without effect if the owner is
+		// confirmed (BAD_SEQID or cache), or if the consumer is still the owner's last
+		// transaction and nothing that may have dropped the cache happened since
+		noEffect := func(x *req40) bool {
+			return r.confirmed[q.owner] || (last == x && !r.dirty[q.owner])
 		}
-		if q.falseOf == nil && r.consumed[k2] == q {
-			// retransmission of a request that advanced the owner's seqid: without effect
-			// if it is still the owner's last one or the owner is confirmed
-			if last == q || r.confirmed[q.owner] {
-				c.retransOf = q.consCall
-				r.out.dropped[c.label] = true
-			}
-		} else if q.falseOf != nil && (last == q.falseOf || r.confirmed[q.owner]) {
+		cons := r.consumed[k2]
+		if cons != nil && cons != q && first && noEffect(cons) {
+			q.falseOf = cons
 			r.out.dropped[c.label] = true
+		} else if cons == q && noEffect(q) {
+			c.retransOf = q.consCall
+			r.out.dropped[c.label] = true
+		} else if q.falseOf != nil && !first {
+			if noEffect(q.falseOf) {
+				r.out.dropped[c.label] = true
+			} else {
+				q.falseOf = nil // may be executed as a request of its own now
+			}
 		}
 		if o := q.orig(); o != nil && !o.returned && c.retransOf == nil && q.falseOf == nil {
 			// the original is executing right now
@@ -581,6 +590,9 @@ func (r *run40) onReturn(c *call40) {
 	}
 
 	// ---- client bookkeeping: did this call run a transaction that advanced the seqid? ----
+	if c.retransOf == nil && q.falseOf == nil && advancingExcluded[st] && !q.lockTx && q.owner >= 0 {
+		r.dirty[q.owner] = true
+	}
 	if c.retransOf == nil && q.falseOf == nil && !advancingExcluded[st] {
 		if q.lockTx {
 			r.lastLock[r.other(q.argSid)] = q
@@ -605,6 +617,15 @@ func (r *run40) advance(c *call40, st uint32) {
 	}
 	if !advancingExcluded[st] {
 		k2 := [2]int{q.owner, int(q.seq)}
+		if q.kind == kOpen && !r.confirmed[q.owner] {
+			// OPEN on an unconfirmed owner reinitialised it: earlier seqids mean nothing now
+			for k := range r.consumed {
+				if k[0] == q.owner {
+					delete(r.consumed, k)
+				}
+			}
+		}
+		r.dirty[q.owner] = false
 		r.consumed[k2] = q
 		r.lastCons[q.owner] = q
 		q.consCall = c
